@@ -55,6 +55,9 @@ class FL(ASTNode):
 class FS(FL):
     extra: str = "x"
 
+    def __bool__(self) -> bool:  # a registered node that is falsy in a boolean context
+        return False
+
 
 @dataclass(frozen=True)
 class FV(ASTNode):
@@ -79,6 +82,9 @@ class FP(ASTNode):
     one: ASTNode | None = None
     items: tuple[ASTNode, ...] = ()
     tag: int = 0
+
+    def __len__(self) -> int:  # container-like: falsy while `items` is empty (it may still hold `one`)
+        return len(self.items)
 
 
 @dataclass(frozen=True)
